@@ -232,6 +232,20 @@ class Escape:
                     eff['gen_if_filled'] = sorted(self.dyn_if.get(ev['fk'], ()))
                     eff['_dyn'] = True
                 out.append((obj, eff, T.short(name)))
+        # halfedge_ = Halfedges(<structure built outside the Impl>): pairing not produced by CreateHalfedges nor
+        # copied from another Impl must pass the IsManifold gate
+        if ev.get('op') == '=' and recv is not None:
+            r = T.strip(recv)
+            if r.get('k') == 'mem' and r['n'] == 'halfedge_' and r.get('cls') == IMPL and ev.get('args'):
+                a = T.strip_copy(ev['args'][0])
+                foreign = False
+                if a.get('k') == 'ctor' and T.short(a.get('cls', '')) == 'Halfedges' and a.get('args'):
+                    foreign = not any(isinstance(y, dict) and y.get('k') == 'mem' and y.get('n') == 'halfedge_'
+                                      for y in T.walk(a))
+                if foreign:
+                    obj = self.obj_of(r['base'])
+                    if obj:
+                        out.append((obj, {'gen': ['G', 'K']}, 'halfedge_ = Halfedges(external)'))
         # structural halfedge mutation -> K
         if ev.get('mcls') == HE and recv is not None and T.short(name) in STRUCT_MUT:
             r = T.strip(recv)
